@@ -143,4 +143,20 @@ CHECKS = {
             {"harness": "c06_udp", "flavour": "asan", "runs": {"quick": 12000, "thorough": 1200000}, "wall": {"quick": 45, "thorough": 1800}},
         ],
     },
+    "C11": {
+        "level": "fault_enumeration",
+        "rule": ("each run = one seeded history of 1-12 operations (set, set-with-TTL, setBatch, remove, removeWithPrefix, clear, expireAt, persist, compact; values 0..9000 bytes; "
+                 "log-size limits 60 B..10 MiB so that compaction also happens implicitly) executed once against the real store with every mutating file operation logged; then "
+                 "ALL crash images of that history are enumerated: the directory as of every file operation, plus cuts inside every write (every byte offset for writes <= 128 B, "
+                 "field boundaries and drawn offsets for larger ones); each image is reopened by a fresh store, compared key by key with the admissible old/new states, and "
+                 "continued with 0-3 more operations, a clean close and another reopen that must match a reference map exactly; JSON mode: set/remove/flush histories with all "
+                 "images and write cuts; an evaluation = one history (the counters give images and cuts); distinct = distinct abstract state hash of (images, file ops, history)"),
+        "real": ["iora::storage::KVStore (log, snapshot, compaction, load)", "iora::storage::JsonFileStore", "the real file system (per-run scratch directory under /dev/shm)", "libstdc++ fstream/filesystem"],
+        "stub": ["the crash itself: images are rebuilt from the logged operation prefix (process-crash model: every completed write survives)", "clock (simulated, TTLs are far in the future here)"],
+        "assumptions": ["process-crash model as the property states: no page-cache loss, fsync is a no-op", "a write() is atomic up to the chosen cut (torn at byte granularity)"],
+        "jobs": [
+            {"harness": "c11_kvcrash", "mode": "kv", "flavour": "asan", "runs": {"quick": 700, "thorough": 60000}, "wall": {"quick": 40, "thorough": 1800}, "seed_off": 1},
+            {"harness": "c11_kvcrash", "mode": "json", "flavour": "asan", "runs": {"quick": 1200, "thorough": 60000}, "wall": {"quick": 15, "thorough": 600}, "seed_off": 2},
+        ],
+    },
 }
